@@ -1,10 +1,14 @@
 (* C01 — Parsing always terminates: no panic, abort or hang on any input.
-   What is a theorem today (C01_partial): the parser layer, for every token stream.  The scanner-side families
-   (lookahead discipline on buffered inputs, token-queue invariants, termination/linear fuel) are exercised by
-   the correspondence run with the model's explicit Panic / OutOfFuel outcomes as monitors; see DESIGN.md. *)
+   Theorems today: (1) the parser layer never panics, for every token stream; (2) the WHOLE scanner + parser
+   pipeline over a buffered input of ANY capacity >= 8 never panics, for every input string: no lookahead-contract
+   violation (peek/skip beyond the buffer, lookahead beyond the capacity, push into a full buffer, the
+   assert!(buflen >= k) of the Input default methods) and none of the skeleton panics (empty simple-key / indent
+   stacks, token insertion out of range, token-number underflow, debug_assert!(is_break), u32 overflow of the version
+   number).  Not yet theorems: termination with linear fuel (the model's OutOfFuel outcome is a monitor on every
+   input of the correspondence run) and the byte-level StrInput overrides (tied by the back-end comparison C10). *)
 From Coq Require Import List NArith Bool.
 Import ListNotations.
-Require Import Parser SBase SFetch Pipe Grammar C02base C02tail C02run.
+Require Import Parser SBase SFetch Pipe SBuf Grammar C02base C02tail C02run ScanWP ScanSafeTop.
 
 (* The pull parser never panics (pop_state on an empty stack, fetch_token without peek, unreachable! arms,
    State::End in the state machine), whatever the token stream and however the scanner ended: a panic verdict
@@ -23,3 +27,15 @@ Proof.
   intros p g n HI HE HP. pose proof (state_machine_post p g HI HE) as H. rewrite HP in H. exact H.
 Qed.
 Print Assumptions C01_step_never_panics.
+
+(* The scanner model on a buffered input of any capacity >= 8 never panics, whatever the input and the fuel. *)
+Theorem C01_scanner_never_panics_buffered : forall cap, (8 <= cap)%nat -> forall F fuel input n,
+  snd (scan_all (buf_ops cap) F fuel (init_sc {| b_buf := []; b_rest := input |}) []) <> SPanic n.
+Proof. exact scanner_never_panics_buffered. Qed.
+Print Assumptions C01_scanner_never_panics_buffered.
+
+(* ... and neither does the whole pipeline (scanner, then parser on its tokens). *)
+Theorem C01_pipeline_never_panics_buffered : forall cap, (8 <= cap)%nat -> forall input n,
+  snd (run_buf cap input) <> PPanic n.
+Proof. exact pipeline_never_panics_buffered. Qed.
+Print Assumptions C01_pipeline_never_panics_buffered.
